@@ -10,6 +10,8 @@ CONSTANTS
   Rfs = {1, 2}
   Isos = {FALSE}
   Skips = {FALSE, TRUE}
-  Bads = {{}, {1}, {2}}
+  Bads = {{}, {1}, {2}, {1, 2}, {2, 3}}
+  Longs = {FALSE, TRUE}
+  RootSet = {0}
 INVARIANTS MCTypeOK MCSound MCSoundSkip MCComplete MCCompleteSkip MCNeverSplit MCBadAlone MCOthersUnaffected MCFilterHonoured
 CHECK_DEADLOCK FALSE
